@@ -23,10 +23,14 @@ class C07Spec(explore.Spec):
             out += [{"version": "2.2", "cb": None, "flavour": "async"}, {"version": "2.1", "cb": None, "transport": "mqtt"}]
         # persistence on: a periodic save, or a stop + fresh start (nodes restored from the file), at any position
         out += [{"version": "2.2", "cb": None, "persistence": fmt, "depth": 3 if tier == "quick" else 4} for fmt in ("pickle", "json")]
+        # link faults: a write fails (the line is lost, the link is replaced) while traffic is held back / released
+        out.append({"version": "2.2", "cb": None, "focus": "link", "depth": 5 if tier == "quick" else 7})
         return out
 
     def alphabet(self, cfg):
         v = cfg["version"]
+        if cfg.get("focus") == "link":
+            return alpha.events(v, ["WA", "CFG", "RA0", "CFGB", "WB"]) + [("set", 1, 0, 2, "0"), ("writefail",), ("reconnect",)]
         evs = []
         seen = set()
         for ev in alpha.events(v, NAMES):
@@ -38,6 +42,8 @@ class C07Spec(explore.Spec):
             ("set", 2, 0, 2, "1"),
             ("set", 1, 7, 2, "1"),
             ("fw", 1, 1, 1, "F1"),
+            ("set", 1, 0, 2, "", (("msg_type", 2),)),  # the controller asks the node for a value (msg_type keyword)
+            alpha.rx(f"1;255;0;0;18;{v}"),  # the node presents itself as a repeater
         ]
         if cfg.get("persistence"):
             evs += [("tick",), ("restart",)]
@@ -59,7 +65,7 @@ class C07Spec(explore.Spec):
         t = alpha.lines(cfg["version"])
         viols = []
         world.close()
-        if len(hist) > 9 or cfg.get("persistence"):
+        if len(hist) > 9 or cfg.get("persistence") or cfg.get("focus"):
             return viols  # the pair schedule is applied in every state up to this history length
         for a in PAIR_NAMES:
             for b in PAIR_NAMES:
